@@ -206,6 +206,29 @@ Definition pipeline_programs (tb : list func) : list prog :=
 Definition pkg_writes_outside_init (tb : list func) : list facc :=
   filter (fun x => match x with (_, l, k, _) => is_pkg_loc l && rw_eqb k W end) (flat_accs tb).
 
+(* package-level OBJECTS handed out by pointer.  The translator records `return v` / `return &v` for a
+   package-level v of pointer type as a write of "handout:pkg.v": the process-wide object ends up in the data of
+   a module set, and a write through that data (x.F.G = ..) would be seen by every other set of the process.
+   Allowed are exactly the identity sentinels below: they are compared by pointer and never written (a write to
+   them through a per-set structure is not visible to the translator; the stress harness compares full dumps of
+   independent sets with fresh-process baselines for that). *)
+Definition handout_allow : list (string * loc) :=
+  [ ("FindNode", "handout:pkg.isRPCNode");              (* marker "path points into an rpc", holds one fixed error *)
+    ("parser.nextStatement", "handout:pkg.ignoreMe") ]. (* parser's error-recovery token, dropped by the caller *)
+
+Definition is_handout (x : facc) : bool := match x with (_, l, _, _) => String.prefix "handout:" l end.
+
+Definition all_accs_of (tb : list func) : list facc :=
+  flat_map (fun f => body_accs (f_name f) [] (f_body f)) tb.
+
+Definition handouts (tb : list func) : list facc := filter is_handout (all_accs_of tb).
+
+Definition handout_ok (tb : list func) : bool :=
+  forallb (fun x => match x with (fn, l, _, _) =>
+     existsb (fun a => String.eqb (fst a) fn && String.eqb (snd a) l) handout_allow end) (handouts tb) &&
+  forallb (fun a => existsb (fun x => match x with (fn, l, _, _) =>
+     String.eqb (fst a) fn && String.eqb (snd a) l end) (handouts tb)) handout_allow.
+
 (* ------------------------------------------------------------------ scenario (iii): guarded maps *)
 Definition guarded_locs : list loc := ["Modules.byNS"; "Modules.entryCache"; "typeDictionary.dict"].
 
@@ -250,6 +273,6 @@ Definition programs_of (tb : list func) : list (list prog) :=
   [reader_programs tb; pipeline_programs tb; guarded_programs tb].
 
 Definition table_ok (tb : list func) : bool :=
-  roots_ok tb && allow_ok tb && guarded_present tb && exempt_ok tb &&
+  roots_ok tb && allow_ok tb && guarded_present tb && exempt_ok tb && handout_ok tb &&
   match pkg_writes_outside_init tb with [] => true | _ => false end &&
   forallb lockset_ok (programs_of tb).
